@@ -32,9 +32,9 @@ EscRec(r) ==
         \* the specified string reader recovers s from the text the code wrote, closed by the appended
         \* quote only (how the code chooses to spell an escape is its own business)
         ELSE IF ~(LET u == Unquote(Append(r.e, DQ), TRUE) IN u.ok /\ u.v = r.s /\ u.used = Len(r.e) + 1)
-            THEN Bad("escape.modelread", Escape(r.s, r.ml))
+            THEN Bad("diag.escape.modelread", Escape(r.s, r.ml))
         ELSE IF ~r.o.esc \/ ~FoldTableOK(r.fold) THEN Bad("record.shape", 0)
-        ELSE IF ~AgreesTV(r, exp, "TokenSyntaxError") THEN Bad("inverse.lex", exp)
+        ELSE IF ~AgreesTV(r, exp, "TokenSyntaxError") THEN Bad("diag.inverse.lex", exp)
         ELSE Good
 
 EmbedRec(r) ==
@@ -47,7 +47,7 @@ EmbedRec(r) ==
             THEN Bad("record.shape", 0)      \* the harness must embed at a token boundary
         ELSE IF ~(Len(r.toks) >= k /\ IsString(r.toks[k], r.s) /\ TV(SubSeq(r.toks, 1, k - 1)) = TV(SubSeq(P.toks, 1, k - 1)))
             THEN Bad("embed.token", [k |-> k, s |-> r.s])
-        ELSE IF ~AgreesTV(r, exp, "TokenSyntaxError") THEN Bad("embed.lex", exp)
+        ELSE IF ~AgreesTV(r, exp, "TokenSyntaxError") THEN Bad("diag.embed.lex", exp)
         ELSE Good
 
 \* r.s is the value the token at r.idx must have (the hostile string, or the composite value it is
@@ -58,7 +58,7 @@ LineRec(r) ==
     IN  IF ~(r.err.id = "none" /\ Len(r.toks) >= r.idx /\ IsString(r.toks[r.idx], r.s))
             THEN Bad("line.token", [idx |-> r.idx, s |-> r.s])
         ELSE IF Len(r.toks) # r.ntoks THEN Bad("line.count", r.ntoks)
-        ELSE IF ~AgreesTV(r, exp, "TokenSyntaxError") THEN Bad("line.lex", exp)
+        ELSE IF ~AgreesTV(r, exp, "TokenSyntaxError") THEN Bad("diag.line.lex", exp)
         ELSE Good
 
 Verdict(r) == CASE r.k = "esc" -> EscRec(r)
